@@ -41,6 +41,20 @@ class DebugRoutineRecord(DebugNodeRecord):
     local_consts: dict[str, tuple]
 
 
+def evaluate_consts(consts):
+    # A CONST whose value expression cannot be evaluated (it divides by
+    # zero or overflows; the program fails when it uses the constant)
+    # must not stop the compilation just because debug info was asked
+    # for; such a constant is simply not recorded.
+    values = {}
+    for name, const in consts.items():
+        try:
+            values[name] = (const.type, const.eval())
+        except (OverflowError, ZeroDivisionError, ValueError):
+            pass
+    return values
+
+
 class DebugInfo:
     def __init__(self, source_code, empty_blocks, compilation,
                  global_consts):
@@ -85,10 +99,8 @@ class DebugInfo:
                 source_start_col=start_col,
                 source_end_line=end_line,
                 source_end_col=end_col,
-                local_consts={
-                    name: (const.type, const.eval())
-                    for name, const in node.routine.local_consts.items()
-                },
+                local_consts=evaluate_consts(
+                    node.routine.local_consts),
                 node=node,
             )
 
@@ -283,10 +295,7 @@ class DebugInfoCollector:
         self._empty_blocks.append(code_offset)
 
     def get_debug_info(self):
-        global_consts = {
-            name: (const.type, const.eval())
-            for name, const in self._global_consts.items()
-        }
+        global_consts = evaluate_consts(self._global_consts)
         dbg_info = DebugInfo(self._source_code,
                              self._empty_blocks,
                              self._compilation,
